@@ -1,7 +1,229 @@
-(* Properties_C16.v -- C16: direct and dense kernels are exact.  (work in progress) *)
-From Amgcl Require Import Scalar QcInst Vec Crs DirectUtil CuthillMcKee Direct Inverse StaticMat Qr.
+(* Properties_C16.v -- C16: direct and dense kernels are exact (skyline LU, small inverse,
+   QR, reordering).  Statements only; proofs live in CuthillMcKeeProofs.v, DirectProofs.v,
+   InverseProofs.v, StaticMatProofs.v.
+   "any S": holds for every Scalar record (so also for floats with NaN/Inf);
+   "ring"/"field": Section hypotheses, closed at Qc below. *)
+From Coq Require Import Permutation.
+From Amgcl Require Import Scalar QcInst Vec Crs DirectUtil CuthillMcKee Direct Inverse StaticMat Qr
+     CuthillMcKeeProofs DirectProofs InverseProofs StaticMatProofs.
 Local Open Scope S_scope.
 
-Theorem C16_placeholder : cuthill_mckee false [[0]]%nat = CmOk [0]%nat.
-Proof. reflexivity. Qed.
-Print Assumptions C16_placeholder.
+(* ------------------------------------------------------------------------------------ *)
+(* A4.  Cuthill-McKee (either degree order) terminates within the model's fuel and returns a
+   permutation of 0..n-1 for EVERY square pattern with n >= 1: non-symmetric, disconnected,
+   duplicate entries, unsorted rows; node 0 is never expanded ([while (node > 0)]) and the
+   fallback for unreachable components is what makes the result complete. *)
+Theorem C16_cuthill_mckee_permutation (reverse : bool) (G : graph) :
+  graph_wf G = true -> length G <> 0%nat ->
+  exists p, cuthill_mckee reverse G = CmOk p /\ Permutation p (seq 0 (length G)).
+Proof. exact (cuthill_mckee_permutation reverse G). Qed.
+Print Assumptions C16_cuthill_mckee_permutation.
+
+(* ------------------------------------------------------------------------------------ *)
+(* A1 (any S).  skyline_lu::operator(): the solution AND the scratch vector y left behind do
+   not depend on the previous content of y (reuse of one solver object, C15 clause). *)
+Theorem C16_skyline_solve_junk_independent (S : Scalar) (f : skyline S) rhs x (y y' : vec S) :
+  profile_wf (sk_n f) (sk_ptr f) -> length y = sk_n f -> length y' = sk_n f ->
+  sky_solve f rhs x y = sky_solve f rhs x y'.
+Proof. exact (sky_solve_junk_independent f rhs x y y'). Qed.
+Print Assumptions C16_skyline_solve_junk_independent.
+
+Theorem C16_skyline_scratch_keeps_size (S : Scalar) (f : skyline S) rhs x (y : vec S) :
+  length (snd (sky_solve f rhs x y)) = length y.
+Proof. exact (sky_solve_scratch_length f rhs x y). Qed.
+Print Assumptions C16_skyline_scratch_keeps_size.
+
+(* detail::inverse: the result does not depend on the uninitialised scratch array t. *)
+Theorem C16_inverse_junk_independent (S : Scalar) n (A t t' : vec S) :
+  length t = (n * n)%nat -> length t' = (n * n)%nat -> inverse n A t = inverse n A t'.
+Proof. exact (inverse_junk_independent n A t t'). Qed.
+Print Assumptions C16_inverse_junk_independent.
+
+Section Field.
+Variable S : Scalar.
+Hypothesis Sft : Sfield S.
+Hypothesis Seqb : seqb_spec S.
+
+(* A1 (field).  Solve phase, for ARBITRARY factors in skyline storage with a well-formed
+   profile: with L' = strictly lower part L plus the diagonal of UN-inverted pivots 1/D[i]
+   (D holds the inverted pivots), U' = unit upper triangular part U,
+        L' (U' x') = b'     where x'[t] = x[perm[t]], b'[i] = rhs[perm[i]]. *)
+Theorem C16_skyline_solve_exact (f : skyline S) (rhs x y : vec S) :
+  profile_wf (sk_n f) (sk_ptr f) -> length y = sk_n f ->
+  NoDup (sk_perm f) -> length (sk_perm f) = sk_n f ->
+  (forall i, i < sk_n f -> pget (sk_perm f) i < length x) ->
+  (forall i, i < sk_n f -> vget (sk_D f) i <> s0) ->
+  let xo := fst (sky_solve f rhs x y) in
+  forall i, i < sk_n f ->
+    sumn (fun j => Lfull f i j *
+                   sumn (fun t => Ufull f j t * vget xo (pget (sk_perm f) t)) (sk_n f)) (sk_n f)
+    = vget rhs (pget (sk_perm f) i).
+Proof. exact (sky_solve_exact Sft f rhs x y). Qed.
+
+(* A2 (field), error branch and pivots: a zero pivot makes the constructor return the error
+   value (C++: precondition throws); a successful factorisation leaves only non-zero inverted
+   pivots in D (the hypothesis of the solve theorem). *)
+Theorem C16_skyline_zero_first_pivot (A : crs S) perm :
+  is_zero (vget (snd (fill (nrows A) (inverse_perm (nrows A) perm)
+                           (profile_ptr (nrows A) (profile_heights (nrows A) (inverse_perm (nrows A) perm) A)) A)) 0) = true ->
+  sky_build_perm A perm = SkyZeroPivot.
+Proof. exact (sky_build_zero_first_pivot A perm). Qed.
+
+Theorem C16_skyline_pivots_nonzero n ptr (lud : vec S * vec S * vec S) L U D :
+  (0 < n)%nat -> length (snd lud) = n ->
+  factorize n ptr lud = Some (L, U, D) -> forall i, i < n -> vget D i <> s0.
+Proof. exact (factorize_pivots_nonzero Sft Seqb n ptr lud L U D). Qed.
+
+(* FULL STATEMENT (unproved): A2 factorisation.
+   forall (A : crs S) perm, wf A = true -> rows have distinct columns -> Permutation perm (seq 0 n) ->
+     sky_build_perm A perm = SkyOk f ->
+     forall i j, i < n -> j < n ->
+       sumn (fun t => Lfull f i t * Ufull f t j) n = mget A (pget perm i) (pget perm j)
+   (first for the full profile = dense Crout, then for the profile computed from the pattern:
+    entries outside the profile are zero and stay zero), together with
+     profile_wf n (sk_ptr f).
+   Tested instead: exact correspondence of the implementation with Direct.v and the
+   spec-level oracle A x = b on every non-exceptional case (tools/props/C16.py). *)
+
+(* A3 (field), partial: detail::inverse returns a right inverse whenever it returns at all
+   (every chosen pivot non-zero), proved for n = 1 and n = 2 by exhausting the pivot choices.
+   [sinv s0 = s0] is how the exact instance (and vq::Q) totalise 1/0; it makes the C++
+   assertion [!is_zero(d)] equivalent to "pivot non-zero". *)
+Hypothesis sinv_0 : sinv (@s0 S) = s0.
+Theorem C16_inverse_exact_partial n (A t B : vec S) : (n <= 2)%nat ->
+  length A = (n * n)%nat -> length t = (n * n)%nat ->
+  inverse n A t = Some B ->
+  forall i j, i < n -> j < n -> mat_mul_get n A B i j = if Nat.eqb i j then s1 else s0.
+Proof. exact (inverse_exact_small Sft Seqb sinv_0 n A t B). Qed.
+
+(* FULL STATEMENT (unproved): A3 for every n.
+   forall n (A t B : vec S), length A = n*n -> length t = n*n -> inverse n A t = Some B ->
+     forall i j, i < n -> j < n -> mat_mul_get n A B i j = if Nat.eqb i j then s1 else s0.
+   B (ordered field): A non-singular -> inverse n A t <> None  (partial pivoting by |.| only
+   ever picks a zero pivot when the whole remaining column is zero).
+   Tested instead: exact correspondence with Inverse.v and the spec oracle A*inv(A) = I for
+   n <= 4 (6 thorough) incl. exhaustive 2x2 over {-2..2} and 3x3 over {-1,0,1}; singular
+   inputs give "assert" on both sides. *)
+End Field.
+
+(* ------------------------------------------------------------------------------------ *)
+(* A5 (ring).  static_matrix blocks over a commutative ring: (non-commutative) ring identities,
+   as equalities of the row-major buffers; dimensions N x K, K x M as in the templates. *)
+Section Ring.
+Variable S : Scalar.
+Hypothesis Srt : Sring S.
+
+Theorem C16_sm_mul_assoc N K1 K2 M (a b c : vec S) :
+  sm_mul N K2 M (sm_mul N K1 K2 a b) c = sm_mul N K1 M a (sm_mul K1 K2 M b c).
+Proof. exact (sm_mul_assoc Srt N K1 K2 M a b c). Qed.
+
+Theorem C16_sm_mul_add_distr_l N K M (a b c : vec S) :
+  length b = (K * M)%nat -> length c = (K * M)%nat ->
+  sm_mul N K M a (sm_add b c) = sm_add (sm_mul N K M a b) (sm_mul N K M a c).
+Proof. exact (sm_mul_add_distr_l Srt N K M a b c). Qed.
+
+Theorem C16_sm_mul_add_distr_r N K M (a b c : vec S) :
+  length a = (N * K)%nat -> length b = (N * K)%nat ->
+  sm_mul N K M (sm_add a b) c = sm_add (sm_mul N K M a c) (sm_mul N K M b c).
+Proof. exact (sm_mul_add_distr_r Srt N K M a b c). Qed.
+
+Theorem C16_sm_mul_identity N M (a : vec S) : length a = (N * M)%nat ->
+  sm_mul N N M (sm_id N) a = a /\ sm_mul N M M a (sm_id M) = a.
+Proof. intro H. split; [exact (sm_mul_id_l Srt N M a H)|exact (sm_mul_id_r Srt N M a H)]. Qed.
+
+Theorem C16_sm_additive_group N M (a b c : vec S) :
+  length a = (N * M)%nat -> length b = (N * M)%nat -> length c = (N * M)%nat ->
+  sm_add a b = sm_add b a /\ sm_add (sm_add a b) c = sm_add a (sm_add b c) /\
+  sm_add a (sm_zero N M) = a /\ sm_add a (sm_neg a) = sm_zero N M /\
+  sm_sub a b = sm_add a (sm_neg b).
+Proof.
+  intros Ha Hb Hc. repeat split.
+  - exact (sm_add_comm Srt N M a b Ha Hb).
+  - exact (sm_add_assoc Srt N M a b c Ha Hb Hc).
+  - exact (sm_add_zero_r Srt N M a Ha).
+  - exact (sm_add_neg_r Srt N M a Ha).
+  - exact (sm_sub_def Srt N M a b Ha Hb).
+Qed.
+
+Theorem C16_sm_scaling N K M s (a b c : vec S) :
+  length a = (N * K)%nat -> length c = (N * K)%nat ->
+  sm_scale s (sm_mul N K M a b) = sm_mul N K M (sm_scale s a) b /\
+  sm_scale s (sm_add a c) = sm_add (sm_scale s a) (sm_scale s c).
+Proof.
+  intros Ha Hc. split; [exact (sm_scale_mul Srt N K M s a b Ha)|exact (sm_scale_add Srt N K s a c Ha Hc)].
+Qed.
+
+(* adjoint: anti-multiplicative involution, provided the scalar adjoint is a ring involution
+   (identity for real scalars, conjugation for complex ones) *)
+Hypothesis sadj_add : forall x y : S, sadj (x + y) = sadj x + sadj y.
+Hypothesis sadj_mul : forall x y : S, sadj (x * y) = sadj x * sadj y.
+Hypothesis sadj_invol : forall x : S, sadj (sadj x) = x.
+
+Theorem C16_sm_adjoint_mul N K M (a b : vec S) :
+  sm_adjoint N M (sm_mul N K M a b) = sm_mul M K N (sm_adjoint K M b) (sm_adjoint N K a).
+Proof. exact (sm_adjoint_mul Srt sadj_add sadj_mul N K M a b). Qed.
+
+Theorem C16_sm_adjoint_involutive N M (a : vec S) : length a = (N * M)%nat ->
+  sm_adjoint M N (sm_adjoint N M a) = a.
+Proof. exact (sm_adjoint_invol sadj_invol N M a). Qed.
+
+Theorem C16_sm_adjoint_add N M (a b : vec S) : length a = (N * M)%nat -> length b = (N * M)%nat ->
+  sm_adjoint N M (sm_add a b) = sm_add (sm_adjoint N M a) (sm_adjoint N M b).
+Proof. exact (sm_adjoint_add sadj_add N M a b). Qed.
+End Ring.
+
+(* ------------------------------------------------------------------------------------ *)
+(* A6 QR.
+   FULL STATEMENT (unproved; needs a scalar with a TRUE square root, e.g. R):
+   Section hypotheses: Sfield S, total order compatible with the field, sabs x = |x|,
+     forall x, 0 <= x -> ssqrt x * ssqrt x = x /\ 0 <= ssqrt x, sadj = id.
+   forall m n rs cs A q, (rs, cs) in {(n,1), (1,m)} -> length A = m*n -> length q = m*n ->
+     let '(A', tau, Q) := qr_factorize m n rs cs A q in let k := min m n in
+     (forall i j, i < m -> j < n -> sumn (fun l => qr_Q rs cs Q i l * qr_R rs cs A' l j) k = A[i*rs + j*cs]) /\
+     (forall i j, i < k -> j < k -> sumn (fun l => qr_Q rs cs Q l i * qr_Q rs cs Q l j) m = delta i j) /\
+     (forall i j, j < i -> qr_R rs cs A' i j = 0);
+   B: qr_solve returns the least-squares (m >= n) / minimum-norm (m < n) solution for full rank.
+   Status: Qr.v is an executable model of qr.hpp; the implementation instantiated with the exact
+   rationals and the pseudo-root agrees with it digit for digit (correspondence), and the binary64
+   build satisfies the residual oracles |A-QR|, |Q'Q-I| <= 1e-10*scale, R upper triangular,
+   solve = least squares / minimum norm (TESTED, not proved). *)
+
+(* ------------------------------------------------------------------------------------ *)
+(* closed instances at the exact rationals: no hypotheses left *)
+Theorem C16_skyline_solve_exact_Qc (f : skyline QcS) (rhs x y : vec QcS) :
+  profile_wf (sk_n f) (sk_ptr f) -> length y = sk_n f ->
+  NoDup (sk_perm f) -> length (sk_perm f) = sk_n f ->
+  (forall i, i < sk_n f -> pget (sk_perm f) i < length x) ->
+  (forall i, i < sk_n f -> vget (sk_D f) i <> s0) ->
+  forall i, i < sk_n f ->
+    sumn (fun j => Lfull f i j *
+                   sumn (fun t => Ufull f j t * vget (fst (sky_solve f rhs x y)) (pget (sk_perm f) t))
+                        (sk_n f)) (sk_n f)
+    = vget rhs (pget (sk_perm f) i).
+Proof. exact (C16_skyline_solve_exact QcS QcS_field f rhs x y). Qed.
+Print Assumptions C16_skyline_solve_exact_Qc.
+
+Theorem C16_inverse_exact_partial_Qc n (A t B : vec QcS) : (n <= 2)%nat ->
+  length A = (n * n)%nat -> length t = (n * n)%nat ->
+  inverse n A t = Some B ->
+  forall i j, i < n -> j < n -> mat_mul_get n A B i j = if Nat.eqb i j then s1 else s0.
+Proof. exact (C16_inverse_exact_partial QcS QcS_field QcS_eqb eq_refl n A t B). Qed.
+Print Assumptions C16_inverse_exact_partial_Qc.
+
+Theorem C16_sm_ring_Qc N K1 K2 M (a b c : vec QcS) :
+  sm_mul N K2 M (sm_mul N K1 K2 a b) c = sm_mul N K1 M a (sm_mul K1 K2 M b c) /\
+  sm_adjoint N K2 (sm_mul N K1 K2 a b) = sm_mul K2 K1 N (sm_adjoint K1 K2 b) (sm_adjoint N K1 a).
+Proof.
+  split; [exact (C16_sm_mul_assoc QcS QcS_ring N K1 K2 M a b c)|].
+  exact (C16_sm_adjoint_mul QcS QcS_ring (fun _ _ => eq_refl) (fun _ _ => eq_refl) N K1 K2 a b).
+Qed.
+Print Assumptions C16_sm_ring_Qc.
+
+(* non-vacuity: a concrete structurally non-symmetric 3x3 system is factorised by the model
+   with a well-formed profile and non-zero pivots, and the solve returns the exact solution *)
+Example C16_nonvacuous :
+  let A : crs QcS := mkCrs 3 [[(0, qc 4 1); (2, qc 1 1)]; [(1, qc 3 1)]; [(0, qc 1 1); (1, qc 1 1); (2, qc 5 1)]]%nat in
+  exists f, sky_build false A = SkyOk f /\ sk_perm f = [0; 1; 2]%nat /\ sk_ptr f = [0; 0; 0; 2]%nat /\
+    fst (sky_solve f [qc 5 1; qc 3 1; qc 7 1] [qc 9 1; qc 9 1; qc 9 1] [qc 8 1; qc 8 1; qc 8 1])
+      = [qc 1 1; qc 1 1; qc 1 1].
+Proof. vm_compute. eexists. repeat split; reflexivity. Qed.
